@@ -54,7 +54,16 @@ def gen_case(rng, tier):
     muts = [{'sel': rng.random(), 'op': rng.choice(['append', 'setitem', 'delattr', 'clear', 'setattr', 'pop']), 'r': rng.random(), 'value': rng.choice([1, 'm', None, [1], {'q': 1}])}
             for _ in range(rng.randrange(1, 6))]
     style = rng.choice(['flow', 'block'])
-    return {'texts': [emit.emit(d, style) for d in out], 'reevals': rng.choice([1, 1, 2, 4]), 'muts': muts}
+    # a second sequence of the same layout with other scalar values (built with the same evaluation context when it is shared)
+    other = copy.deepcopy(out)
+    mk2 = gen.Marker('w')
+    for d in other:
+        for _, nd in emit.walk(d):
+            if nd['t'] == 'sc' and not nd.get('vdel') and isinstance(nd.get('v'), (str, int, float)) and not isinstance(nd.get('v'), bool):
+                nd['v'] = mk2.next(rng, 's')
+                nd['style'] = 'dq'
+    return {'texts': [emit.emit(d, style) for d in out], 'other': [emit.emit(d, style) for d in other], 'reevals': rng.choice([1, 1, 2, 4]), 'muts': muts,
+            'shared_ctx': rng.random() < 0.5}
 
 
 PLAIN = (int, float, bool, str, bytes, type(None))
@@ -190,7 +199,10 @@ def run(case):
         return {'status': 'skip', 'feats': ['empty_root']}
     src_before = view.tree_view(tree, flags=FLAGS, md=True)
     verif_targets.reset()
-    got = lib.outcome(lambda: Config(tree))
+    from awesomeyaml.eval_context import EvalContext
+    shared = EvalContext() if case.get('shared_ctx') else None
+    mk = (lambda: shared) if shared is not None else (lambda: None)
+    got = lib.outcome(lambda: Config(tree, eval_ctx=mk()))
     if got[0] == 'err':
         # e.g. an !import that fails, an !eval raising: the source must still be untouched
         feats = ['eval_fails_' + lib.err_kind(got[1])]
@@ -217,8 +229,8 @@ def run(case):
     if not vio:
         for i in range(case['reevals']):
             verif_targets.reset()
-            again = lib.outcome(lambda: Config(cfg.ayns.source))
-            feats.append('reevaluated')
+            again = lib.outcome(lambda: Config(cfg.ayns.source, eval_ctx=mk()))
+            feats.append('reevaluated' + ('_shared_ctx' if shared is not None else ''))
             if again[0] == 'err':
                 vio.append({'mech': 'source-not-reusable', 'what': f're-evaluating cfg.ayns.source fails: {lib.describe(again)}; texts={texts!r}'})
                 break
@@ -239,9 +251,16 @@ def run(case):
             vio.append({'mech': 'mutating-result-changes-source', 'what': f'mutations {case["muts"]!r} of the evaluated config changed the source tree; texts={texts!r}'})
         else:
             verif_targets.reset()
-            again = lib.outcome(lambda: Config(cfg.ayns.source))
+            again = lib.outcome(lambda: Config(cfg.ayns.source, eval_ctx=mk()))
             if again[0] == 'err' or util.typed(c19._plain(again[1]), other=_tag) != first:
                 vio.append({'mech': 'mutating-result-changes-reevaluation', 'what': f'after mutating the result the source evaluates differently; texts={texts!r}'})
+    if not vio and shared is not None and case.get('other'):
+        # another tree built with the same context must evaluate as it does with a fresh one
+        o1 = lib.outcome(lambda: lib.build(case['other'], eval_ctx=shared))
+        o2 = lib.outcome(lambda: lib.build(case['other']))
+        feats.append('second_tree_same_ctx')
+        if o1[0] != o2[0] or (o1[0] == 'ok' and util.typed(c19._plain(o1[1]), other=_tag) != util.typed(c19._plain(o2[1]), other=_tag)):
+            vio.append({'mech': 'context-carries-state-between-builds', 'what': f'a second tree evaluated with a reused EvalContext gives {util.short(c19._plain(o1[1]) if o1[0] == "ok" else o1[1], 300)}, with a fresh one {util.short(c19._plain(o2[1]) if o2[0] == "ok" else o2[1], 300)}; first texts={texts!r} second texts={case["other"]!r}'})
     nt = n_calls > 0 and any(isinstance(v, (dict, list)) for v in cfg.values())
     res = {'status': 'violation' if vio else 'ok', 'nontrivial': nt, 'feats': sorted(set(feats)), 'sig': util.sig(texts), 'evals': 2 + case['reevals']}
     if vio:
